@@ -119,7 +119,9 @@ func c34Case(c *Ctx, pairs []string, names []string) {
 func c34(c *Ctx) {
 	c.Rule = "random pair lists over names {A,AB,A1,a,B,_x,'',A+,é} × values with '=' and empty, plus pairs without '='; " +
 		"queried names: every given name, prefixes/extensions, absent names; non-trivial = ≥2 surviving names or a duplicate name; distinct by exact pair list"
-	nameAlpha := []string{"A", "B", "AB", "A1", "a", "_x", "A+", "é", "ABC", "Z", "A B"}
+	// names on both sides of '=' (0x3d) in byte order, at every position: the sort key is `name=`
+	nameAlpha := []string{"A", "B", "AB", "A1", "a", "_x", "A+", "é", "ABC", "Z", "A B",
+		"1", "1A", "-x", ".", "+", "<", ">", " ", "<A", "A<", "A>", "0", "9z", "~", "\x00", "\xff", "A\x00", "#", ";"}
 	valAlpha := []string{"", "1", "x=y", "=", "v", "é", " ", "A", "B=c"}
 	// names containing '=' are excluded from *queried* names: known finding C34-get-name-with-eq
 	// (fixed entries do not need the exclusion; see known-findings.jsonl).
